@@ -93,6 +93,9 @@ func runRead(c *hx.Ctx, buf []byte, ops []rop) (coq []string, panicked bool, msg
 			case "RVarBytes":
 				d, sz, i, e := src.NextVarBytes()
 				r = fmt.Sprintf("VVarBytes %s %d %s %s", hx.CoqBytes(d), sz, hx.CoqBool(i), hx.CoqBool(e))
+				if !e {
+					canonOracle(c, buf, ops, before, src.Pos(), i, func(s *common.ZeroCopySink) { s.WriteVarBytes(d) }, "NextVarBytes")
+				}
 			case "RAddr":
 				d, e := src.NextAddress()
 				r = fmt.Sprintf("VBytes %s %s", hx.CoqBytes(d[:]), hx.CoqBool(e))
@@ -114,9 +117,15 @@ func runRead(c *hx.Ctx, buf []byte, ops []rop) (coq []string, panicked bool, msg
 			case "RReadVarUint":
 				v, err := src.ReadVarUint()
 				r = errOr(err, fmt.Sprintf("VOkNum %d", v))
+				if err == nil {
+					canonOracle(c, buf, ops, before, src.Pos(), false, func(s *common.ZeroCopySink) { s.WriteVarUint(v) }, "ReadVarUint")
+				}
 			case "RReadVarBytes":
 				d, err := src.ReadVarBytes()
 				r = errOr(err, fmt.Sprintf("VOkBytes %s", hx.CoqBytes(d)))
+				if err == nil {
+					canonOracle(c, buf, ops, before, src.Pos(), false, func(s *common.ZeroCopySink) { s.WriteVarBytes(d) }, "ReadVarBytes")
+				}
 			default:
 				panic("bad op " + o.Op)
 			}
@@ -129,6 +138,21 @@ func runRead(c *hx.Ctx, buf []byte, ops []rop) (coq []string, panicked bool, msg
 		}
 	})
 	return
+}
+
+// canonOracle: a value was returned (no eof) with the given irregular flag; the flag must be set
+// exactly when the consumed bytes are not what the writer produces for that value.
+func canonOracle(c *hx.Ctx, buf []byte, ops []rop, before, after uint64, irregular bool, write func(*common.ZeroCopySink), what string) {
+	sink := common.NewZeroCopySink(nil)
+	write(sink)
+	consumed := buf[before:after]
+	canonical := bytes.Equal(consumed, sink.Bytes())
+	if canonical == irregular {
+		c.Fail("varuint-canonicity", what+": non-minimal variable-length integer not reported as irregular (or a minimal one reported)",
+			map[string]interface{}{"buf": hx.Hex(buf), "ops": ops, "at": before},
+			map[string]interface{}{"irregular": irregular, "consumed": hx.Hex(consumed), "writer_encoding": hx.Hex(sink.Bytes())},
+			"irregular == (consumed != writer's encoding of the returned value)")
+	}
 }
 
 func errOr(err error, ok string) string {
@@ -518,6 +542,36 @@ func Run(c *hx.Ctx) {
 		var r readCase
 		if jsonUnmarshal(raw, &r) == nil && len(r.Ops) > 0 {
 			doRead(c, hx.UnHex(r.Buf), r.Ops, "corpus")
+		}
+	}
+	// deterministic boundary sweep: every prefix form x every size-class boundary value
+	bvals := []uint64{0, 1, 0xfc, 0xfd, 0xfe, 0xff, 0x100, 0xfffe, 0xffff, 0x10000, 0x10001, 0xfffffffe, 0xffffffff,
+		0x100000000, 0x100000001, 0x7fffffffffffffff, 0xffffffffffffffff}
+	for _, v := range bvals {
+		for form := 0; form < 3; form++ {
+			sink := common.NewZeroCopySink(nil)
+			switch form {
+			case 0:
+				if v > 0xffff {
+					continue
+				}
+				sink.WriteByte(0xfd)
+				sink.WriteUint16(uint16(v))
+			case 1:
+				if v > 0xffffffff {
+					continue
+				}
+				sink.WriteByte(0xfe)
+				sink.WriteUint32(uint32(v))
+			default:
+				sink.WriteByte(0xff)
+				sink.WriteUint64(v)
+			}
+			sink.WriteBytes([]byte{1, 2, 3})
+			b := append([]byte{}, sink.Bytes()...)
+			for _, op := range []string{"RVarUint", "RReadVarUint", "RVarBytes", "RReadVarBytes"} {
+				doRead(c, b, []rop{{Op: op}, {Op: "RByte"}}, "boundary")
+			}
 		}
 	}
 	n := c.N(1500, 12000)
